@@ -1,6 +1,7 @@
 ------------------------------ MODULE RtFsTrace ------------------------------
 (* Trace validation for RtFs.  A log is a concatenation of executions:
-     {"c":"scenario", mode, flushes, chunk, rdorder}         start of an execution
+     {"c":"scenario", mode, flushes, chunk, rdorder, stale}  start of an execution (stale: bytes of a finished
+                                                             earlier stream found in the final thread directory)
      {"c":<call>, "w":<dir>, "n":<bytes>}                    one system call of libovni as recorded by
                                                              strace, projected to the vocabulary of Script
      {"c":"killed"|"returned"|"aborted", obs, json, flushed, emu, diag}
@@ -23,8 +24,8 @@ Rec == Log[l]
 Is(c) == l <= Len(Log) /\ Rec.c = c /\ l' = l + 1
 
 ScenOf(r) == [mode |-> r.mode, flushes |-> r.flushes, chunk |-> r.chunk, rdorder |-> r.rdorder,
-              accept |-> {8 + Total(r.flushes)}]
-Empty == [mode |-> "direct", flushes |-> <<>>, chunk |-> 1, rdorder |-> "obs_first", accept |-> {}]
+              accept |-> {8 + Total(r.flushes)}, stale |-> IF "stale" \in DOMAIN r THEN r.stale ELSE 0]
+Empty == [mode |-> "direct", flushes |-> <<>>, chunk |-> 1, rdorder |-> "obs_first", accept |-> {}, stale |-> 0]
 
 TInit == l = 1 /\ kind = "replay" /\ Init(Empty)
 
@@ -32,7 +33,8 @@ TScenario ==
    /\ Is("scenario")
    /\ kind' = Rec.kind
    /\ sc' = ScenOf(Rec) /\ pc' = 1
-   /\ obs' = [tmp |-> -1, fin |-> -1] /\ json' = [tmp |-> "absent", fin |-> "absent"]
+   /\ obs' = [tmp |-> -1, fin |-> IF StaleOf(ScenOf(Rec)) > 0 THEN StaleOf(ScenOf(Rec)) ELSE -1]
+   /\ json' = [tmp |-> "absent", fin |-> IF StaleOf(ScenOf(Rec)) > 0 THEN "fin" ELSE "absent"]
    /\ flushed' = 0 /\ status' = "running" /\ fault' = 0 /\ copyfail' = FALSE /\ moveok' = TRUE
 
 IsCall == l <= Len(Log) /\ Rec.c \notin {"scenario", "killed", "returned", "aborted", "killed_mt", "returned_mt", "aborted_mt"}
